@@ -99,9 +99,16 @@ def drive_hop(kind, c, rng):
     c = dict(c); c["v"] = tr.velocity.tolist()
     rho_before = tr.rho.copy()
     hop = {"target": c["target"], "weight": 1.0, "zeta": 0.25, "prob": 0.5}
-    if kind == "afssh":
-        tr.delP[:, c["state"], c["state"]] = np.array(c["dir"])   # direction = Re(delP_ss - delP_tt)
+    if kind == "afssh" and c["kind"] in ("exact-tie", "orthogonal-down"):
+        tr.delP[:, c["state"], c["state"]] = np.array(c["dir"])   # exact data: direction = Re(delP_ss - delP_tt) with delP_tt = 0
         tr.delP[:, c["target"], c["target"]] = 0.0
+    elif kind == "afssh":
+        shift = np.array([rng.gauss(0, 1) for _ in range(ndim)]) * float(np.linalg.norm(c["dir"]))
+        for j in range(nst):
+            tr.delP[:, j, j] = np.array([rng.gauss(0, 1) for _ in range(ndim)])
+        tr.delP[:, c["target"], c["target"]] = shift                      # direction = Re(delP_ss - delP_tt): only the difference matters
+        tr.delP[:, c["state"], c["state"]] = shift + np.array(c["dir"])
+        c = dict(c); c["dir"] = np.real(tr.delP[:, c["state"], c["state"]] - tr.delP[:, c["target"], c["target"]]).tolist()   # as rounded by the subtraction
     x_before = tr.position.copy()
     ke0 = float(tr.kinetic_energy())
     if kind == "es-child":
